@@ -4,7 +4,7 @@
 from warnings import warn
 import numpy as np
 from scipy import sparse
-from scipy.sparse.linalg import aslinearoperator
+from scipy.sparse.linalg import aslinearoperator, LinearOperator
 from scipy.linalg import lapack, get_blas_funcs, eig, svd
 
 from .params import set_tol
@@ -421,9 +421,11 @@ def condest(A, maxiter=25, symmetric=False):
     C = aslinearoperator(A)
     power = 1
     if not symmetric:
+        B = C
+
         def matvec(v):
-            return C.rmatvec(C.A @ v)
-        C.matvec = matvec
+            return B.rmatvec(B.matvec(v))
+        C = LinearOperator(B.shape, matvec=matvec, dtype=B.dtype)
         power = 0.5
 
     [evect, ev, H, V, breakdown_flag] =\
